@@ -33,7 +33,8 @@ FOLD("attr_pieces", elem="Str", acc="Seq[Str]", step=_PIECE,
      note="the Python expression pieces of an attribute value: (code) for a ${code} piece, the repr of every non-empty literal piece, in order")
 
 _SPLIT = "re_split('(\\\\${(?:[^$]*?{.+|.+?)})', G_int('re:S'), self.attributes[k])"
-_VALUE = "ite(len(attr_pieces(%s, len(%s), empty_strs())) > 0, ' + '.join(attr_pieces(%s, len(%s), empty_strs())), py_repr(''))" % ((_SPLIT,) * 4)
+_JOINED = "' + '.join(attr_pieces(%s, len(%s), empty_strs()))" % (_SPLIT, _SPLIT)
+_VALUE = "ite(len(%s) > 0, %s, py_repr(''))" % (_JOINED, _JOINED)      # the pieces joined by +, or '' when there is none
 
 C("mako.parsetree:Tag._parse_attributes",
   params={"self": "TagNode", "expressions": "Seq[Str]", "nonexpressions": "Seq[Str]"},
